@@ -19,10 +19,14 @@ EXPLANATION = (
     "sort_by result is stored); R-contiguous-groups (every enumerated group is the slice "
     "order[a:b]; combinations are applied with group_list(group, group[0]), which keeps the first "
     "element of the slice as leader in place); R-index-kept (labels computed from plain lists are stored with "
-    "index=X.index, so each row gets the label of its own value)."
+    "index=X.index, so each row gets the label of its own value); R-qualitative-map (labels of qualitative "
+    "values are applied by one simultaneous per-column replace, never value by value, where a label equal "
+    "to another raw value would be replaced again); R-label-alignment; R-readonly-queries (summary / to_json "
+    "/ the label-table builder leave the fitted state untouched); R-value-truthiness (no `value or default` "
+    "on data: a boundary equal to 0.0 is a value)."
 )
 NOT_DECIDED = "monotonicity of the fitted step function on actual boundaries (follows from the above given sortedness; the numeric boundaries are runtime values)"
-FLOORS = {"R-neighbour-merge": 4, "R-boundaries-sorted-unique-inf": 4, "R-leader-is-max": 1, "R-interval-lookup": 2, "R-total-cover": 3, "R-categorical-order": 4, "R-contiguous-groups": 12, "R-index-kept": 1}
+FLOORS = {"R-neighbour-merge": 4, "R-boundaries-sorted-unique-inf": 4, "R-leader-is-max": 1, "R-interval-lookup": 2, "R-total-cover": 3, "R-categorical-order": 4, "R-contiguous-groups": 12, "R-index-kept": 1, "R-value-truthiness": 1, "R-qualitative-map": 1, "R-label-alignment": 2, "R-readonly-queries": 3}
 
 
 def rule_apply_combination(ctx):
@@ -43,6 +47,12 @@ def check(ctx):
     carver.check_enum_bounds(ctx, "R-contiguous-groups")
     rule_apply_combination(ctx)
     c07.rule_index_kept(ctx)
+    from .truthiness import check_or_default
+
+    check_or_default(ctx, "R-value-truthiness", [f for f in ctx.repo.all_functions() if "/selectors/" not in f.module.relpath])
+    c04.rule_qualitative_map(ctx)
+    c04.rule_label_alignment(ctx)
+    c07.rule_readonly_queries(ctx)
 
 
 MUTANTS = [
@@ -58,6 +68,9 @@ MUTANTS = [
     M("categorical order descending", [(F_QUAL, "            target_rate, y=y, ascending=True, axis=0", "            target_rate, y=y, ascending=False, axis=0")], "R-categorical-order", "increasing"),
     M("categorical order not applied", [(F_QUAL, "            self.values_orders.update({feature: order.sort_by(new_order)})", "            self.values_orders.update({feature: order})")], "R-categorical-order", "applied"),
     M("NaN stays at its target-rate rank", [(F_QUAL, "            if self.str_nan in new_order:\n                new_order.remove(self.str_nan)\n                new_order += [self.str_nan]\n", "")], "R-categorical-order", "missing-value"),
+    M("a boundary equal to 0.0 is taken for a missing label", [(F_BASE, "                    labels_to_quantiles[feature][label_discarded]\n                    if label_discarded != str_nan\n                    else str_nan\n", "                    labels_to_quantiles[feature].get(label_discarded) or str_nan\n")], "R-value-truthiness", "convert_to_values"),
+    M("summary overwrites the fitted label table", [(F_BASE, "        labels_per_values: dict[str, dict[Any, Any]] = {}\n\n        # iterating over each feature", "        labels_per_values: dict[str, dict[Any, Any]] = self.labels_per_values\n\n        # iterating over each feature")], "R-readonly-queries"),
+    M("qualitative labels applied one value at a time (replacements chain)", [(F_BASE, "        X = X.replace(\n            {\n                feature: label_per_value\n                for feature, label_per_value in self.labels_per_values.items()\n                if feature in self.qualitative_features\n            }\n        )\n", "        for feature in self.qualitative_features:\n            for value, label in self.labels_per_values[feature].items():\n                X.loc[X[feature] == value, feature] = label\n")], "R-qualitative-map"),
     M("groups are every other element", [(F_BC, "                combination = list(order[start_idx:next_idx])", "                combination = list(order[start_idx:next_idx:2])")], "R-contiguous-groups", "contiguous slice"),
     M("combination applied with the last element as leader", [(F_BC, "        order_copy.group_list(combi, combi[0])", "        order_copy.group_list(combi, combi[-1])")], "R-contiguous-groups", "applied on a copy"),
 ]
